@@ -27,7 +27,7 @@
 const char *target_name = "sig";
 
 enum { L_MIXED_FLAGS, L_DELIVERY_IN_HANDLER, L_EXCL_UNREG_OPEN, L_THIS_THREAD, L_TWO_THREADS, L_RAISE_IN_LIBCALL, L_FORK_CHILD, L_PLAIN_RECEIVER,
-       L_HANDOFF_TO_FALLBACK, L_COALESCED, L_LAST_UNREG_RESTORES_DFL, L_M0, L_M1, L_M2, L_M3, L_EXCLUSIVE, L_THIS_SHADOWS_PROCESS, L_OTHER_THREAD_NOT_WOKEN, L_PIPE, L_BAD_SIGNUM, L_CHILD_REGISTERS };
+       L_HANDOFF_TO_FALLBACK, L_COALESCED, L_LAST_UNREG_RESTORES_DFL, L_M0, L_M1, L_M2, L_M3, L_EXCLUSIVE, L_THIS_SHADOWS_PROCESS, L_OTHER_THREAD_NOT_WOKEN, L_PIPE, L_BAD_SIGNUM, L_CHILD_REGISTERS, L_FORK_CHILD_REGISTERS };
 
 #define FAILC(tag, ...) vz_fail("C10", tag, __VA_ARGS__)
 static void fail_any(const char *tag, const char *fmt, ...)
@@ -290,7 +290,7 @@ static void register_bad_signum(void)
  * interest and sends itself the signal: the delivery must reach the handler.  Runs on the virtual clock, so "never" is the
  * guard timer at +2 s being reached with nothing else to do. */
 static int hook_sysfault(int sys, unsigned long k);
-static int child_hits;
+static int child_hits; static int cfg_method;
 static struct iv_signal child_is; static struct iv_timer child_guard;
 static void child_sig_handler(void *c) { (void)c; child_hits++; iv_signal_unregister(&child_is); iv_timer_unregister(&child_guard); }
 static void child_guard_cb(void *c) { (void)c; _exit(7); }
@@ -325,9 +325,19 @@ static void fork_child_raises(void)
 	vz_label(L_FORK_CHILD);
 	vz_log("[T%d] fork: the child raises every signal that has interests", sched_self());
 	vz_hash_u(0x400);
+	/* with the poll()/ppoll() methods the child shares no kernel object of the loop with its parent, so it may also register an
+	 * interest of its own for a signal the parent has interests in, before raising: that must not reach the parent either */
+	int child_registers = cfg_method >= 2 && ch_n(2);
+	int creg_si = ch_n(NSIGS), creg_fl = ch_n(2) ? 0 : IV_SIGNAL_FLAG_EXCLUSIVE;
+	if (child_registers) { vz_label(L_FORK_CHILD_REGISTERS); vz_log("[T%d]   (the child first registers its own interest for signal#%d flags=%d)", sched_self(), creg_si, creg_fl); }
 	pid_t pid = fork();
 	if (pid == 0) {
 		sched_active = 0; vk_active = 0;
+		if (child_registers) {
+			static struct iv_signal cs;
+			IV_SIGNAL_INIT(&cs); cs.signum = signums[creg_si]; cs.flags = creg_fl; cs.cookie = NULL; cs.handler = child_sig_handler;
+			if (iv_signal_register(&cs)) _exit(8);
+		}
 		for (int k = 0; k < NSIGS; k++) {
 			struct sigaction cur; sigaction(signums[k], NULL, &cur);     /* the disposition as inherited at the instant of the fork */
 			if (cur.sa_handler != SIG_DFL) { raise(signums[k]); kill(getpid(), signums[k]); }
@@ -462,7 +472,7 @@ static const char *excl[4] = { "", "epoll-timerfd", "epoll-timerfd epoll", "epol
 void target_run(void)
 {
 	signums[0] = SIGUSR1; signums[1] = SIGUSR2; signums[2] = SIGRTMIN + 1;
-	int method = ch_n(4);
+	int method = ch_n(4); cfg_method = method;
 	eventfd_mode = (int[]){ 0, 0, 0, 2 }[ch_n(4)];
 	nown = 1 + (ch_n(2));
 	have_raiser = ch_n(2);
